@@ -8,7 +8,7 @@ TECHNIQUE = ("Coq proof over histories: every complete message ends with exactly
              "the consumer model (NextPackage / NextPackageUntil) consumes exactly one response, also when the callback fails at any package + correspondence with the real Channel over multi-round histories")
 RULE = ("histories of 1..6 request/response rounds on one channel (response shapes: empty, rows, several result sets with DONE(MORE), trailing DONE with COUNT/PROC/ERROR bits or missing, EED interleaved; "
         "random packetisation per round) fed to the real Channel, events compared with the model's per packet; consumer cases: the queue is filled with 1..3 responses and NextPackageUntil is called with "
-        "nil / continuing / io.EOF-returning / failing callbacks stopping at every position; results, errors, EED lists and what is left in the queue are compared. Non-trivial = input longer than 80 characters; distinct by input.")
+        "nil / continuing / io.EOF-returning / failing callbacks stopping at every position; results, errors, EED lists and what is left in the queue are compared. Non-trivial = input longer than 80 characters; distinct by input. Callbacks answer their error with false or true beside it ((true, error), (true, io.EOF)): the error decides.")
 ASSUMPTIONS = ASSUMPTIONS_COMMON + ["the tx side of a round (Reset / SendRemainingPackets) is covered by C01's model; the rx theorems are about the responses"]
 LEVEL_TEXT = ("C03_message_final_done: for every message received at a message boundary, its deliveries are followed by the synthetic final DONE exactly when the last one is not a final DONE (also for "
               "messages delivering nothing), nothing stays buffered and the boundary invariant holds again, so the statement composes over every history. C03_drain_exactly_one_response / "
